@@ -2,6 +2,7 @@ package rules
 
 import (
 	"fmt"
+	"go/types"
 	"math/big"
 
 	"verif/internal/absint"
@@ -23,6 +24,39 @@ func acceptFormula(r *Run, errIdx int) (*Formula, string) {
 		parts = append(parts, fAnd(FGuard(e.Guard), f))
 	}
 	return fOr(parts...), ""
+}
+
+// successFormula: the condition under which a routine with an (object[, error | bool]) result reports success, whatever
+// convention its signature uses: an error result is nil, a bool result is true, or - with neither - the object is
+// non-nil.
+func successFormula(r *Run) (*Formula, string) {
+	res := r.Fn.Signature.Results()
+	for i := 0; i < res.Len(); i++ {
+		if types.Identical(res.At(i).Type(), types.Universe.Lookup("error").Type()) {
+			return acceptFormula(r, i)
+		}
+	}
+	for i := 0; i < res.Len(); i++ {
+		if b, ok := res.At(i).Type().Underlying().(*types.Basic); ok && b.Kind() == types.Bool {
+			var parts []*Formula
+			for _, e := range r.Ex.Returns {
+				t, isT := e.St.Resolve(exitResult(e, i)).(*sym.Term)
+				if !isT {
+					return nil, fmt.Sprintf("return at %s has a success flag that is not a term: %s", PosStr(r.Prog, e.Pos), absint.ValString(exitResult(e, i)))
+				}
+				parts = append(parts, fAnd(FGuard(e.Guard), FTerm(e.St.Simplify(t))))
+			}
+			return fOr(parts...), ""
+		}
+	}
+	if res.Len() >= 1 {
+		f, prob := acceptFormula(r, 0) // condition for a nil object
+		if prob != "" {
+			return nil, prob
+		}
+		return fNot(f), ""
+	}
+	return nil, "the routine has no result"
 }
 
 // nilFormula is the condition under which result idx is nil.
